@@ -9,11 +9,13 @@ import tempfile
 import pv
 
 WRAPS = ("close closedir fclose mmap munmap ftruncate shm_open socket pthread_create pthread_key_create "
-         "pthread_key_delete pthread_mutex_init pthread_cond_init dlopen sem_open sem_close fcntl").split()
+         "pthread_key_delete pthread_mutex_init pthread_cond_init dlopen sem_open sem_close fcntl fstat getsockopt pthread_attr_init "
+         "pthread_attr_setdetachstate").split()
 
 # call name of the call language -> the library function it exercises (for finding signatures)
 FUNC = {
-    "lib_init": "p_libsys_init", "lib_shutdown": "p_libsys_shutdown", "cur_thread": "p_uthread_current",
+    "lib_init": "p_libsys_init", "lib_init_full": "p_libsys_init_full", "str_realloc": "p_realloc", "thread_run_long": "p_uthread_create",
+    "mmap_unmap": "p_mem_munmap", "inval": "invalid-argument call", "lib_shutdown": "p_libsys_shutdown", "cur_thread": "p_uthread_current",
     "strdup": "p_strdup", "strchomp": "p_strchomp", "strtok": "p_strtok", "strtod": "p_strtod",
     "list_append": "p_list_append", "list_prepend": "p_list_prepend", "list_remove": "p_list_remove", "list_free": "p_list_free",
     "tree_new": "p_tree_new", "tree_insert": "p_tree_insert", "tree_remove": "p_tree_remove", "tree_clear": "p_tree_clear", "tree_free": "p_tree_free",
